@@ -6,6 +6,8 @@ From Coq Require Import String List.
 From TS Require Import Model.Str Model.Outcome Model.Unicode Model.Types Model.Parse Model.Lang.Common Model.Lang.Decl
                        Model.Lang.Swift Model.Lang.Scala Model.Lang.Go Model.Lang.Kotlin Model.Lang.Python Spec.C12Spec Proofs.C12Obs.
 From TS Require Proofs.C12 Proofs.C12_Swift Proofs.C12_Go Proofs.C12_Kotlin Proofs.C12_Python.
+From TS Require Import Model.MultiFile.
+From TS Require Model.Writer Proofs.C12Multi Proofs.C12MultiWitness.
 Import ListNotations.
 
 (* Swift, single file: for every program and configuration (any prefix, mappings, decorators), ()
@@ -185,3 +187,161 @@ Theorem C12_python_default_translation_refuted :
                     In (lit "parse_rfc3339") uses /\ ~ In (lit "parse_rfc3339") defs /\ c12_good uses defs = false.
 Proof. exact Proofs.C12.c12_python_default_translation_refuted. Qed.
 Print Assumptions C12_python_default_translation_refuted.
+
+(* ---------------------------------------------------------------------------------------------
+   MULTI-FILE (folder output, `-d`) MODE.  The language value lives as long as the run: generate_crates
+   (Model/MultiFile.v) threads the printer state from one crate's file to the next, in plan order.  Vocabulary
+   (Proofs/C12Multi.v):
+     <l>_multi_decls uc cfg st pd     the declarations of ONE file and the state reached, from the state st the earlier
+                                      crates left (= <l>_decls of the single-file theorems when st is the initial state)
+     c12_<l>_observe_multi .. st pd   the observation (names used, names defined/imported) of that file, read by
+                                      the SAME readers of Spec/C12Spec.v as the single-file observation
+     <l>_multi_gen uc cfg             the multi-file generator in the shape generate_crates takes
+   Each language has: a layout theorem tying <l>_multi_decls to the TEXT <l>_generate_multi writes, the per-file
+   judgement from any admissible state, and the run: every file of generate_crates satisfies the judgement. *)
+
+(* Python, what py_multi_decls is: py_generate_multi succeeds with `text` IF AND ONLY IF py_multi_decls succeeds
+   with declarations ds and the same final state, and text is the header, the import block / TypeVar lines / helper
+   functions of the state REACHED after the last declaration, then the rendering of exactly ds. *)
+Theorem C12_multi_python_layout :
+  forall (uc : unicode) (cfg : py_config) (st : py_state) (pd : parsed) (text : str) (st' : py_state),
+    py_generate_multi uc cfg st pd = Ok (text, st') <->
+    exists ds, Proofs.C12Multi.py_multi_decls uc cfg st pd = Ok (ds, st') /\
+               text = py_begin_file cfg ++ py_write_all_imports st' ++ py_write_custom_translations st' ++
+                      List.concat (map py_render_decl ds).
+Proof. exact Proofs.C12Multi.py_multi_layout. Qed.
+Print Assumptions C12_multi_python_layout.
+
+(* from the initial state of a run the multi-file observation is the single-file one *)
+Theorem C12_multi_python_observe_initial :
+  forall (uc : unicode) (cfg : py_config) (pd : parsed),
+    Proofs.C12Multi.c12_py_observe_multi uc cfg py_empty_state pd = c12_py_observe uc cfg pd.
+Proof. exact Proofs.C12Multi.c12_py_observe_multi_empty. Qed.
+Print Assumptions C12_multi_python_observe_initial.
+
+(* the invariant on printer states, in words; the initial state of a run (py_empty_state, as the CLI model and
+   the driver start generate_crates) satisfies it *)
+Theorem C12_multi_python_state_ok_meaning :
+  (forall st : py_state,
+     Proofs.C12Multi.c12_py_state_ok st = true <->
+     (py_type_variables st <> [] -> In (lit "TypeVar") (c12_py_imported st)) /\
+     (In (lit "datetime") (py_custom_types st) -> In (lit "datetime") (c12_py_imported st))) /\
+  Proofs.C12Multi.c12_py_state_ok py_empty_state = true.
+Proof. split; [exact Proofs.C12Multi.c12_py_state_ok_spec|exact Proofs.C12Multi.c12_py_empty_state_ok]. Qed.
+Print Assumptions C12_multi_python_state_ok_meaning.
+
+(* Python, ONE FILE from ANY state that satisfies the invariant - whatever else the earlier crates left in it
+   (imports, TypeVars, helper translations: they only make the header define MORE): the judgement of C12_python,
+   under the same hypotheses on THIS crate (dom, outside the two classes); and the state reached satisfies the
+   invariant again (this half needs dom only). *)
+Theorem C12_multi_python_file :
+  forall (uc : unicode) (cfg : py_config) (st0 : py_state) (pd : parsed),
+    Proofs.C12Multi.c12_py_state_ok st0 = true -> c12_py_dom cfg (items_of pd) = true ->
+    (forall uses defs, Proofs.C12Multi.c12_py_observe_multi uc cfg st0 pd = Ok (uses, defs) ->
+       c12_py_known cfg pd = None -> c12_good uses defs = true) /\
+    (forall ds st, Proofs.C12Multi.py_multi_decls uc cfg st0 pd = Ok (ds, st) -> Proofs.C12Multi.c12_py_state_ok st = true).
+Proof.
+  intros uc cfg st0 pd Hinv Hdom. split.
+  - intros uses defs H Hk. exact (Proofs.C12Multi.c12_python_multi_file uc cfg st0 pd uses defs Hinv H Hdom Hk).
+  - intros ds st H. exact (Proofs.C12Multi.c12_py_state_ok_step uc cfg st0 pd ds st Hinv H Hdom).
+Qed.
+Print Assumptions C12_multi_python_file.
+
+(* Python, THE RUN: for every plan (any number of crates, any data), every configuration and every initial state
+   satisfying the invariant (py_empty_state does), every file generate_crates produces - file number i, provided the
+   crates up to and including number i are in the domain - is what py_generate_multi returns on crate number i's
+   data from a state st_i that satisfies the invariant; its text is the layout above over the declarations ds;
+   and its observation satisfies the per-file judgement of C12_python whenever crate number i is outside the two
+   classes: every helper name the file uses - in the body or in the header written from the accumulated state -
+   is imported, declared as a TypeVar or defined as a helper function by that file's header.  No hypothesis on the
+   classes of the EARLIER crates.  When the run completes on a plan inside the domain, the final state satisfies
+   the invariant.  (Carry-over makes a later file import or define more than it uses - see the pins below -, never
+   less.) *)
+Theorem C12_multi_python :
+  forall (uc : unicode) (cfg : py_config) (st0 : py_state) (plan : list out_plan)
+         (files : list (str * Writer.gen_result)) (fin : outcome py_state),
+    Proofs.C12Multi.c12_py_state_ok st0 = true ->
+    generate_crates (Proofs.C12Multi.py_multi_gen uc cfg) st0 plan = (files, fin) ->
+    (forall i fname text,
+       nth_error files i = Some (fname, Writer.Generated text) ->
+       Forall (fun p => c12_py_dom cfg (items_of (op_data p)) = true) (firstn (S i) plan) ->
+       exists p st_i st_i' ds uses defs,
+         nth_error plan i = Some p /\ fname = op_file p /\ Proofs.C12Multi.c12_py_state_ok st_i = true /\
+         py_generate_multi uc cfg st_i (op_data p) = Ok (text, st_i') /\
+         Proofs.C12Multi.py_multi_decls uc cfg st_i (op_data p) = Ok (ds, st_i') /\
+         text = py_begin_file cfg ++ py_write_all_imports st_i' ++ py_write_custom_translations st_i' ++
+                List.concat (map py_render_decl ds) /\
+         Proofs.C12Multi.c12_py_observe_multi uc cfg st_i (op_data p) = Ok (uses, defs) /\
+         (c12_py_known cfg (op_data p) = None -> c12_good uses defs = true)) /\
+    (forall st', fin = Ok st' -> Forall (fun p => c12_py_dom cfg (items_of (op_data p)) = true) plan ->
+       Proofs.C12Multi.c12_py_state_ok st' = true).
+Proof. exact Proofs.C12Multi.c12_multi_python. Qed.
+Print Assumptions C12_multi_python.
+
+(* the generator of C12_multi_python is py_generate_multi (the crate name and the import list are not used) *)
+Theorem C12_multi_python_gen_meaning :
+  forall uc cfg st c im pd, Proofs.C12Multi.py_multi_gen uc cfg st c im pd = py_generate_multi uc cfg st pd.
+Proof. reflexivity. Qed.
+Print Assumptions C12_multi_python_gen_meaning.
+
+(* NON-VACUITY (vm_compute), workspaces of Proofs/C12MultiWitness.v parsed by the multi-file front end:
+     alpha/src/lib.rs:  #[typeshare] struct Page<T> { item: T, at: OffsetDateTime }
+     beta/src/lib.rs:   #[typeshare] struct Plain { n: u32 }                          (ws_py_plain)
+   Both crates are in the domain and outside the classes; the run from py_empty_state completes; beta.py is
+   y_beta_plain_py byte for byte: although Plain uses neither a type variable nor datetime, its header carries the
+   imports, `T = TypeVar("T")` and the datetime helper functions crate alpha left in the printer, and imports what
+   these use.  py_multi_observations = the observation of every file, the state threaded as generate_crates does. *)
+Theorem C12_multi_python_nonvacuous_plain :
+  exists plan t_alpha st_fin,
+    Proofs.C12MultiWitness.y_plan Python Proofs.C12MultiWitness.ws_py_plain = Some plan /\
+    map op_crate plan = [lit "alpha"; lit "beta"] /\
+    forallb (fun p => c12_py_dom Proofs.C12MultiWitness.y_py_cfg (items_of (op_data p))) plan = true /\
+    forallb (fun p => Proofs.C12MultiWitness.y_none (c12_py_known Proofs.C12MultiWitness.y_py_cfg (op_data p))) plan = true /\
+    generate_crates (Proofs.C12Multi.py_multi_gen uc_exec Proofs.C12MultiWitness.y_py_cfg) py_empty_state plan =
+      ([(lit "alpha.py", Writer.Generated t_alpha); (lit "beta.py", Writer.Generated Proofs.C12MultiWitness.y_beta_plain_py)], Ok st_fin) /\
+    py_type_variables st_fin = [lit "T"] /\ py_custom_types st_fin = [lit "datetime"] /\
+    Proofs.C12MultiWitness.py_multi_observations Proofs.C12MultiWitness.y_py_cfg py_empty_state plan =
+      [(lit "alpha.py", Ok (Proofs.C12MultiWitness.y_py_uses_generic (lit "T"), Proofs.C12MultiWitness.y_py_defs_alpha));
+       (lit "beta.py", Ok ([lit "TypeVar"; lit "datetime"; lit "BaseModel"], Proofs.C12MultiWitness.y_py_defs_alpha))] /\
+    c12_good (Proofs.C12MultiWitness.y_py_uses_generic (lit "T")) Proofs.C12MultiWitness.y_py_defs_alpha = true /\
+    c12_good [lit "TypeVar"; lit "datetime"; lit "BaseModel"] Proofs.C12MultiWitness.y_py_defs_alpha = true.
+Proof. exact Proofs.C12MultiWitness.c12_multi_python_nonvacuous_plain. Qed.
+Print Assumptions C12_multi_python_nonvacuous_plain.
+
+(* ... and with beta/src/lib.rs: #[typeshare] struct Other<U> { item: U, at: OffsetDateTime } (ws_py_again): the
+   second crate uses generics + datetime too; its file declares both T and U and uses U *)
+Theorem C12_multi_python_nonvacuous_again :
+  exists plan t_alpha t_beta st_fin,
+    Proofs.C12MultiWitness.y_plan Python Proofs.C12MultiWitness.ws_py_again = Some plan /\
+    map op_crate plan = [lit "alpha"; lit "beta"] /\
+    forallb (fun p => c12_py_dom Proofs.C12MultiWitness.y_py_cfg (items_of (op_data p))) plan = true /\
+    forallb (fun p => Proofs.C12MultiWitness.y_none (c12_py_known Proofs.C12MultiWitness.y_py_cfg (op_data p))) plan = true /\
+    generate_crates (Proofs.C12Multi.py_multi_gen uc_exec Proofs.C12MultiWitness.y_py_cfg) py_empty_state plan =
+      ([(lit "alpha.py", Writer.Generated t_alpha); (lit "beta.py", Writer.Generated t_beta)], Ok st_fin) /\
+    py_type_variables st_fin = [lit "T"; lit "U"] /\
+    Proofs.C12MultiWitness.py_multi_observations Proofs.C12MultiWitness.y_py_cfg py_empty_state plan =
+      [(lit "alpha.py", Ok (Proofs.C12MultiWitness.y_py_uses_generic (lit "T"), Proofs.C12MultiWitness.y_py_defs_alpha));
+       (lit "beta.py", Ok (Proofs.C12MultiWitness.y_py_uses_generic (lit "U"),
+                           lit "T" :: lit "U" :: tl Proofs.C12MultiWitness.y_py_defs_alpha))] /\
+    c12_good (Proofs.C12MultiWitness.y_py_uses_generic (lit "U")) (lit "T" :: lit "U" :: tl Proofs.C12MultiWitness.y_py_defs_alpha) = true.
+Proof. exact Proofs.C12MultiWitness.c12_multi_python_nonvacuous_again. Qed.
+Print Assumptions C12_multi_python_nonvacuous_again.
+
+(* REGRESSION PIN (vm_compute) of the seeded change "the import table is drained after every file while TypeVars
+   and helper translations carry over" (py_drained_gen: the multi-file generator started from the incoming state
+   with py_imports emptied).  The state alpha leaves satisfies the invariant, the drained one does not; on ws_py_plain
+   the drained run writes a different beta.py, whose header uses TypeVar and datetime without importing them. *)
+Theorem C12_multi_python_drain_regression :
+  exists plan p_alpha p_beta t_alpha st1 t_beta st2 uses defs,
+    Proofs.C12MultiWitness.y_plan Python Proofs.C12MultiWitness.ws_py_plain = Some plan /\ plan = [p_alpha; p_beta] /\
+    py_generate_multi uc_exec Proofs.C12MultiWitness.y_py_cfg py_empty_state (op_data p_alpha) = Ok (t_alpha, st1) /\
+    Proofs.C12Multi.c12_py_state_ok st1 = true /\
+    Proofs.C12Multi.c12_py_state_ok (Proofs.C12MultiWitness.py_drain st1) = false /\
+    generate_crates (Proofs.C12MultiWitness.py_drained_gen Proofs.C12MultiWitness.y_py_cfg) py_empty_state plan =
+      ([(lit "alpha.py", Writer.Generated t_alpha); (lit "beta.py", Writer.Generated t_beta)], Ok st2) /\
+    t_beta <> Proofs.C12MultiWitness.y_beta_plain_py /\
+    Proofs.C12Multi.c12_py_observe_multi uc_exec Proofs.C12MultiWitness.y_py_cfg (Proofs.C12MultiWitness.py_drain st1) (op_data p_beta) = Ok (uses, defs) /\
+    In (lit "TypeVar") uses /\ ~ In (lit "TypeVar") defs /\ In (lit "datetime") uses /\ ~ In (lit "datetime") defs /\
+    c12_good uses defs = false.
+Proof. exact Proofs.C12MultiWitness.c12_multi_python_drain_regression. Qed.
+Print Assumptions C12_multi_python_drain_regression.
